@@ -41,11 +41,58 @@ theorem snapshot_of_empty (c : HCfg) (t : HashTable) (m : Mem) (h : t.Inv c) (h0
     t.getKeys c m = (.errInvalidCapacity, none, m) ∧ t.getValues c m = (.errInvalidCapacity, none, m) :=
   C02.enumeration_empty c t m h h0
 
-/-- when a snapshot is produced: on a non-empty table, whenever the allocator grants the two blocks -/
+/-- **the status of the builders is pinned** (non-empty table; `hbig`: `cc_array_new_conf`'s own
+byte-size guard `capacity ≤ CC_MAX_ELEMENTS / sizeof(void*)`, true in every address space): `CC_OK`
+with an array exactly when both requests (array header, buffer) are granted, otherwise `CC_ERR_ALLOC`
+with no array and nothing leaked.  A builder that always refused would not satisfy this. -/
+theorem snapshot_status (c : HCfg) (t : HashTable) (m : Mem) (h : t.Inv c) (hpos : 0 < t.size)
+    (hbig : 8 * t.size ≤ Gen.CC_MAX_ELEMENTS) :
+    ((t.getKeys c m).1 = .ok ↔ ((m.allocT t.triple).1 = true ∧ ((m.allocT t.triple).2.allocT t.triple).1 = true)) ∧
+    ((t.getKeys c m).1 = .ok ∨ (t.getKeys c m).1 = .errAlloc) ∧
+    ((t.getKeys c m).1 = .ok ↔ (t.getKeys c m).2.1.isSome = true) ∧
+    ((t.getValues c m).1 = .ok ↔ ((m.allocT t.triple).1 = true ∧ ((m.allocT t.triple).2.allocT t.triple).1 = true)) ∧
+    ((t.getValues c m).1 = .ok ∨ (t.getValues c m).1 = .errAlloc) ∧
+    ((t.getValues c m).1 = .ok ↔ (t.getValues c m).2.1.isSome = true) := by
+  have hw := HashTable.walk_eq t h.2.1
+  have hsz := h.2.2.1
+  have key : ∀ xs : List Nat, xs.length = t.size →
+      ((t.collect c xs m).1 = .ok ↔ ((m.allocT t.triple).1 = true ∧ ((m.allocT t.triple).2.allocT t.triple).1 = true)) := by
+    intro xs hxs
+    have hnz : ¬ (t.size = 0 ∨ 2 ≥ Gen.CC_MAX_ELEMENTS / t.size) := by
+      intro hh
+      rcases hh with hh | hh
+      · omega
+      · have h3 : 3 ≤ Gen.CC_MAX_ELEMENTS / t.size := (Nat.le_div_iff_mul_le hpos).mpr (by omega)
+        omega
+    have hnb : ¬ t.size > Gen.CC_MAX_ELEMENTS / 8 := by
+      have : t.size ≤ Gen.CC_MAX_ELEMENTS / 8 := (Nat.le_div_iff_mul_le (by omega)).mpr (by omega)
+      omega
+    have hchk : decide (t.capacity ≤ t.buckets.length) = true := by simp; have := h.2.1; omega
+    unfold HashTable.collect DArr.new
+    simp only [hnz, hnb, if_false]
+    cases h1 : (m.allocT t.triple).1 with
+    | false => simp
+    | true =>
+      cases h2 : ((m.allocT t.triple).2.allocT t.triple).1 with
+      | false => simp
+      | true =>
+        simp only [Bool.not_true, Bool.false_eq_true, if_false, hchk, Mem.check_true, and_self, iff_true]
+        have hinv0 : (⟨0, t.size, Buf.mk t.size, t.triple⟩ : DArr).Inv := ⟨by simp, by simp, hpos⟩
+        have b1 := (DArr.addAll_room c xs ⟨0, t.size, Buf.mk t.size, t.triple⟩ ((m.allocT t.triple).2.allocT t.triple).2 hinv0 (by simp; omega)).1
+        simp [b1]
+  have kk := (HashTable.collect_spec c t (t.walk.map (fun e => encKey e.key)) m h (by rw [hw, List.length_map]; omega) hbig).2 hpos
+  have vv := (HashTable.collect_spec c t (t.walk.map (·.value)) m h (by rw [hw, List.length_map]; omega) hbig).2 hpos
+  exact ⟨key _ (by rw [hw, List.length_map]; omega), kk.1, HashTable.collect_ok_iff c t _ m,
+         key _ (by rw [hw, List.length_map]; omega), vv.1, HashTable.collect_ok_iff c t _ m⟩
+
+/-- in particular a snapshot is produced whenever the allocator does not refuse -/
 theorem snapshot_succeeds (c : HCfg) (t : HashTable) (m : Mem) (h : t.Inv c) (hpos : 0 < t.size)
-    (hbig : 8 * t.size ≤ Gen.CC_MAX_ELEMENTS) (hs : m.sched = []) :
+    (hbig : 8 * t.size ≤ Gen.CC_MAX_ELEMENTS)
+    (hs : (m.allocT t.triple).1 = true ∧ ((m.allocT t.triple).2.allocT t.triple).1 = true) :
     (t.getKeys c m).1 = .ok ∧ (t.getKeys c m).2.1.isSome = true ∧
-    (t.getValues c m).1 = .ok ∧ (t.getValues c m).2.1.isSome = true := C02.enumeration_succeeds c t m h hpos hbig hs
+    (t.getValues c m).1 = .ok ∧ (t.getValues c m).2.1.isSome = true := by
+  obtain ⟨k1, _, k3, v1, _, v3⟩ := snapshot_status c t m h hpos hbig
+  exact ⟨k1.mpr hs, k3.mp (k1.mpr hs), v1.mpr hs, v3.mp (v1.mpr hs)⟩
 
 /-- `derived_can_grow`: the result is a usable array: appending to it (it is exactly full) grows it
 with the default factor through the inherited triple and appends, whenever that allocation is granted
